@@ -214,6 +214,9 @@ impl Check for C11 {
     fn id(&self) -> &'static str {
         "C11"
     }
+    fn level(&self) -> &'static str {
+        "fault_enumeration"
+    }
     fn runs(&self, tier: Tier) -> u64 {
         match tier {
             Tier::Quick => SWEEP + PLANES + 3_000,
